@@ -238,7 +238,7 @@ def gen(r, tier, i):
             given.append([p, v + 1])
     case['given'] = given
     case['probe_is_step'] = r.random() < 0.4       # the declaring process is a Step (listed under steps)
-    case['conflict'] = {'key': r.choice(['_value', '_units', '_serializer', '_default', '_updater', 'default_units', 'value_units']),
+    case['conflict'] = {'key': r.choice(['_value', '_units', '_serializer', '_default', '_updater', 'default_units', 'value_units', '_value_dict', '_value_dict_rev']),
                         'same': r.random() < 0.4}
     return case
 
@@ -506,11 +506,18 @@ def conflict_case(V, spec):
             # units given only through the defaults: another unit of the same dimension is compatible (the first
             # declaration's unit is kept), a unit of another dimension is a conflict; also default against _value
             'default_units': (1.0 * units.fg, 1000.0 * units.ag if same else 1.0 * units.s),
-            'value_units': (1.0 * units.fg, 1000.0 * units.ag if same else 1.0 * units.s)}[key]
+            'value_units': (1.0 * units.fg, 1000.0 * units.ag if same else 1.0 * units.s),
+            # dictionary values: equal, or the second a strict superset of the first (in either listing order)
+            '_value_dict': ({'lower': 0.0, 'n': {'a': 1}}, {'lower': 0.0, 'n': {'a': 1}} if same else {'lower': 0.0, 'n': {'a': 1, 'b': 2}}),
+            '_value_dict_rev': ({'lower': 0.0, 'upper': 10.0}, {'lower': 0.0, 'upper': 10.0} if same else {'lower': 0.0})}[key]
+    if key in ('_value_dict', '_value_dict_rev'):
+        key_name = '_value'
+    else:
+        key_name = key
     _ensure_serializers()
     base = {'_default': 1.0 * units.fg} if key == '_units' else {'_default': 1}
-    s1 = {'P': {'x': dict(base, **{key: vals[0]})}}
-    s2 = {'P': {'x': dict(base, **{key: vals[1]})}}
+    s1 = {'P': {'x': dict(base, **{key_name: vals[0]})}}
+    s2 = {'P': {'x': dict(base, **{key_name: vals[1]})}}
     if key == 'default_units':
         s1 = {'P': {'x': {'_default': vals[0]}}}
         s2 = {'P': {'x': {'_default': vals[1]}}}
@@ -523,7 +530,7 @@ def conflict_case(V, spec):
         raised = None
     except Exception as ex:
         raised = ex
-    if key in ('_value', '_units', '_serializer', 'default_units', 'value_units'):
+    if key in ('_value', '_units', '_serializer', 'default_units', 'value_units', '_value_dict', '_value_dict_rev'):
         if same:
             V.check('compatible_accepted', raised is None, lambda: ('equal %s declarations rejected' % key, repr(raised)[:200]))
         else:
